@@ -9,7 +9,7 @@ from harness import cases as K
 from harness.binding import Binding, LABEL_FAMILIES, quiet
 from harness.verdict import Result
 
-FAMS = ("sparse", "str", "zero", "ident")
+FAMS = ("sparse", "str", "zero", "ident", "cat", "scat", "neg")
 HG_INV = ["LineEdgesIsJoined", "LineSymmetric", "LineViaSharedNode", "LineMonotone", "LineOneIsDualSupport",
           "JaccardInUnitInterval", "CliqueIsAdjSupport", "BipDegrees", "SimplicialDownwardClosed", "SimplicialIdempotent"]
 DIR_INV = ["DirLineArcsIsArc", "DirLineNoSelfLoop", "DirLineMonotone", "DirLineReversal", "DirSimBounded"]
@@ -201,15 +201,15 @@ def hg_inputs(tier, rng):
     e3 = [c for z in (1, 2, 3) for c in itertools.combinations((1, 2, 3), z)]
     for mask in range(1 << len(e3)):                      # every hypergraph on 3 nodes
         es = [e3[i] for i in range(len(e3)) if mask >> i & 1]
-        for f in (FAMS if tier == "thorough" else (FAMS[mask % 4],)):
+        for f in (FAMS if tier == "thorough" else (FAMS[mask % len(FAMS)],)):
             out.append((3 if mask % 3 else 4, es, False, f))
     e4 = [c for z in (1, 2, 3, 4) for c in itertools.combinations((1, 2, 3, 4), z)]
     for i in range(40 if tier == "quick" else 1000):      # 4 nodes: a seeded sample of the 2^15
         mask = rng.getrandbits(15) & rng.getrandbits(15) if rng.random() < 0.6 else rng.getrandbits(15)
-        out.append((4, [e4[j] for j in range(15) if mask >> j & 1], False, FAMS[i % 4]))
+        out.append((4, [e4[j] for j in range(15) if mask >> j & 1], False, FAMS[i % len(FAMS)]))
     for i in range(60 if tier == "quick" else 1000):      # 2..7 nodes, sizes 1..5
         n = rng.randint(2, 7)
-        out.append((n, random_edges(n, rng), i % 3 == 0, FAMS[i % 4]))
+        out.append((n, random_edges(n, rng), i % 3 == 0, FAMS[i % len(FAMS)]))
     return out
 
 
@@ -245,10 +245,10 @@ def dir_inputs(tier, rng):
     if tier == "quick":
         masks = rng.sample(list(masks), 80)
     for i, mask in enumerate(masks):
-        out.append((3, [k3[j] for j in range(len(k3)) if mask >> j & 1], FAMS[i % 4]))
+        out.append((3, [k3[j] for j in range(len(k3)) if mask >> j & 1], FAMS[i % len(FAMS)]))
     for i in range(60 if tier == "quick" else 1000):
         n = rng.randint(2, 6)
-        out.append((n, random_dir_keys(n, rng), FAMS[i % 4]))
+        out.append((n, random_dir_keys(n, rng), FAMS[i % len(FAMS)]))
     return out
 
 
